@@ -15,7 +15,7 @@ use crate::client::utils::process_tasks_with_max_concurrency;
 use crate::client::{ClientEvent, UploadSummary};
 use crate::{self_encryption::encrypt, Client};
 use ant_evm::{Amount, AttoTokens};
-use ant_networking::{GetRecordCfg, NetworkError};
+use ant_networking::{GetRecordCfg, GetRecordError, NetworkError};
 use ant_protocol::{
     storage::{try_deserialize_record, Chunk, ChunkAddress, RecordHeader, RecordKind},
     NetworkAddress,
@@ -131,6 +131,16 @@ impl Client {
 
         if let RecordKind::Chunk = header.kind {
             let chunk: Chunk = try_deserialize_record(&record)?;
+            // the content must hash to the address that was asked for
+            if *chunk.name() != addr {
+                error!(
+                    "Chunk content does not match the requested address {addr:?}, got {:?}",
+                    chunk.name()
+                );
+                return Err(
+                    NetworkError::GetRecordError(GetRecordError::RecordDoesNotMatch(record)).into(),
+                );
+            }
             Ok(chunk)
         } else {
             error!(
